@@ -8007,18 +8007,31 @@ fn rewrite_segment_records(
 ) -> Result<(), WalStoreError> {
     fs::create_dir_all(root)?;
     fs::create_dir_all(segments_dir(root))?;
-    for path in segment_paths(root)? {
-        fs::remove_file(path)?;
-    }
+    let previous_paths = segment_paths(root)?;
     let path = segment_path(root, WalSegmentId::from_raw(1));
-    File::create(&path)?.sync_all()?;
+    // Build the replacement next to the live segment and publish it with an
+    // atomic rename: a process that stops anywhere in here leaves either the
+    // old committed log or the complete new one, never neither.
+    let temp = segments_dir(root).join(".segment-rewrite.ecwal.tmp");
+    if temp.exists() {
+        fs::remove_file(&temp)?;
+    }
+    File::create(&temp)?.sync_all()?;
     for frame in frames {
-        append_segment_record(&path, DiskWalRecord::Frame(frame), false)?;
+        append_segment_record(&temp, DiskWalRecord::Frame(frame), false)?;
     }
     for commit in commits {
-        append_segment_record(&path, DiskWalRecord::Commit(commit), false)?;
+        append_segment_record(&temp, DiskWalRecord::Commit(commit), false)?;
     }
-    File::options().append(true).open(&path)?.sync_all()?;
+    File::options().append(true).open(&temp)?.sync_all()?;
+    fs::rename(&temp, &path)?;
+    sync_directory_store(&segments_dir(root))?;
+    for previous in previous_paths {
+        if previous != path {
+            fs::remove_file(previous)?;
+        }
+    }
+    sync_directory_store(&segments_dir(root))?;
     sync_directory_store(root)?;
     Ok(())
 }
